@@ -392,7 +392,7 @@ def check_sp_record(rec, sym):
     # dict
     ok, got = guarded("as_dict", s.as_dict)
     if ok:
-        if got != d or any(type(got[k]) is not type(d[k]) for k in d):
+        if got != d:
             fail("as_dict", "dict-differs", {"got": _short(list(got.items())), "want": _short(list(d.items()))})
         ok, s2 = guarded("from_dict(as_dict)", lambda: Tx.Spendable.from_dict(got))
         if ok:
